@@ -731,6 +731,8 @@ class Interp:
             if rv.a == 'Neg':
                 return -v
             if rv.a == 'PtrMetadata':
+                if isinstance(v, RefV):
+                    v = self.deref_all(v)
                 if isinstance(v, StrV):
                     return len(v.b)
                 if isinstance(v, VecV):
